@@ -1,1 +1,222 @@
-/- C03 — property theorems (stub: not built yet). -/
+/-
+C03 — StepMania writing produces a file that denotes the in-memory mapset.
+Property theorems about the writer model (`Reamber/Model/SM.lean`: `slotOf`, `capLcm`, `denMax`, `rowOf`,
+`writeLoop`, `round2`, the `#SELECTABLE` line) which the correspondence check ties to reamber/sm/SMMap.py: write and
+reamber/sm/SMMapSetMeta.py: _write_metadata on every run.
+
+What is proved: the slot arithmetic (`row_exact`, `row_error_lt_one`, `row_in_range`, `denMax_le_cap`,
+`den_dvd_denMax`), the measure bookkeeping (`padding_count`, `measure_at_index`), the `#BPMS` beat rounding
+(`round2_exact`), the `#SELECTABLE` line read back (`selectable_roundtrip`), a plain string header line read back
+(`string_line_roundtrip`).
+`write_read_exact_partial`: the full statement "denote (write ms) = ms" (same objects, columns, times) is NOT
+proved as one theorem: it is the composition of the pieces above with the timing kernel's offset→beat
+round trip (`TimingMap.beats`, C10 `snaps_offsets_exact`, not available) and a text-level lemma
+`scanRows (render measures) = measures`; the check evaluates that composition on every case (S).
+-/
+import Reamber.Lemmas.SMDefs
+import Reamber.Generated.SMTables
+import Mathlib.Tactic.Ring
+import Mathlib.Tactic.Linarith
+import Mathlib.Algebra.Order.Field.Rat
+import Mathlib.Algebra.Order.Floor.Defs
+
+namespace Reamber.C03
+
+open Reamber.Timing Reamber.SM
+
+/-! ### slot arithmetic -/
+
+/-- **Row exact**: when the object's denominator divides the measure's row count, `int(num · (den_max/den))` is
+exactly `num · den_max / den` — the written row denotes the object's position without error. -/
+theorem row_exact (num den dmax : Nat) (hd : den ∣ dmax) :
+    rowOf num den dmax * den = num * dmax := by
+  unfold rowOf
+  exact Nat.div_mul_cancel (Dvd.dvd.mul_left hd num)
+
+/-- **Row error < 1 row** in every case (capped measures included): the written row is the floor of the exact
+row, so the position error is below one row — 4/384 = 1/96 beat when the measure is capped at `MAX_SNAP`. -/
+theorem row_error_lt_one (num den dmax : Nat) (hpos : 0 < den) :
+    rowOf num den dmax * den ≤ num * dmax ∧ num * dmax < (rowOf num den dmax + 1) * den := by
+  unfold rowOf
+  refine ⟨Nat.div_mul_le_self _ _, ?_⟩
+  have := Nat.lt_div_mul_add (a := num * dmax) hpos
+  rw [Nat.add_mul, Nat.one_mul]
+  exact this
+
+/-- the row index is inside the measure's grid (no `IndexError` on rows): `num < den` by construction -/
+theorem row_in_range (num den dmax : Nat) (hnum : num < den) (hd : 0 < dmax) : rowOf num den dmax < dmax := by
+  unfold rowOf
+  apply Nat.div_lt_of_lt_mul
+  calc num * dmax < den * dmax := Nat.mul_lt_mul_of_pos_right hnum hd
+    _ = den * dmax := rfl
+
+/-- `slotOf` always produces `num < den` and `den = 4 · (denominator of the beat)` -/
+theorem slotOf_num_lt_den (beat : Rat) (col : Nat) (ch : Char) :
+    (slotOf beat col ch).num < (slotOf beat col ch).den ∧ (slotOf beat col ch).den = beat.den * 4 := by
+  unfold slotOf
+  simp only [SM.metronome]
+  have hpos : (0 : Int) < ((beat.den * 4 : Nat) : Int) := by
+    have := beat.den_pos
+    omega
+  refine ⟨?_, trivial⟩
+  have h1 := Int.emod_nonneg beat.num (ne_of_gt hpos)
+  have h2 := Int.emod_lt_of_pos beat.num hpos
+  omega
+
+/-- **Cap**: the number of rows of a measure never exceeds `MAX_SNAP` -/
+theorem denMax_le_cap (dens : List Nat) : denMax dens ≤ maxSnap := by
+  cases dens with
+  | nil => simp [denMax]
+  | cons d t => simp only [denMax]; exact Nat.min_le_right _ _
+
+theorem foldl_lcm_dvd (acc : Nat) (t : List Nat) : acc ∣ t.foldl Nat.lcm acc := by
+  induction t generalizing acc with
+  | nil => exact Nat.dvd_refl _
+  | cons x t ih => exact Nat.dvd_trans (Nat.dvd_lcm_left acc x) (ih (Nat.lcm acc x))
+
+theorem foldl_lcm_mem_dvd (acc : Nat) (t : List Nat) : ∀ x ∈ t, x ∣ t.foldl Nat.lcm acc := by
+  induction t generalizing acc with
+  | nil => intro x hx; cases hx
+  | cons y t ih =>
+    intro x hx
+    rcases List.mem_cons.mp hx with rfl | hx
+    · exact Nat.dvd_trans (Nat.dvd_lcm_right acc x) (foldl_lcm_dvd _ t)
+    · exact ih (Nat.lcm acc y) x hx
+
+theorem foldl_lcm_pos (acc : Nat) (t : List Nat) (ha : 0 < acc) (ht : ∀ x ∈ t, 0 < x) : 0 < t.foldl Nat.lcm acc := by
+  induction t generalizing acc with
+  | nil => exact ha
+  | cons y t ih =>
+    exact ih (Nat.lcm acc y) (Nat.lcm_pos ha (ht y (by simp))) (fun x hx => ht x (List.mem_cons_of_mem _ hx))
+
+/-- while the true LCM fits `MAX_SNAP`, `reduce(lcm_and_cap, …)` is the true LCM -/
+theorem foldl_capLcm_eq (acc : Nat) (t : List Nat) (ha : 0 < acc) (ht : ∀ x ∈ t, 0 < x)
+    (hfit : t.foldl Nat.lcm acc ≤ maxSnap) : t.foldl capLcm acc = t.foldl Nat.lcm acc := by
+  induction t generalizing acc with
+  | nil => rfl
+  | cons y t ih =>
+    simp only [List.foldl_cons] at hfit ⊢
+    have hpos : 0 < Nat.lcm acc y := Nat.lcm_pos ha (ht y (by simp))
+    have hle : Nat.lcm acc y ≤ maxSnap :=
+      Nat.le_trans (Nat.le_of_dvd (foldl_lcm_pos _ t hpos (fun x hx => ht x (List.mem_cons_of_mem _ hx)))
+        (foldl_lcm_dvd _ t)) hfit
+    have hc : capLcm acc y = Nat.lcm acc y := by unfold capLcm; exact Nat.min_eq_left hle
+    rw [hc]
+    exact ih (Nat.lcm acc y) hpos (fun x hx => ht x (List.mem_cons_of_mem _ hx)) hfit
+
+/-- **Every object's denominator divides the row count** of its measure whenever the measure's LCM fits
+`MAX_SNAP` (then `row_exact` applies to every object of the measure). -/
+theorem den_dvd_denMax (d : Nat) (t : List Nat) (hpos : ∀ x ∈ d :: t, 0 < x)
+    (hfit : t.foldl Nat.lcm d ≤ maxSnap) : ∀ x ∈ d :: t, x ∣ denMax (d :: t) := by
+  have hd : 0 < d := hpos d (by simp)
+  have ht : ∀ x ∈ t, 0 < x := fun x hx => hpos x (List.mem_cons_of_mem _ hx)
+  have e : denMax (d :: t) = t.foldl Nat.lcm d := by
+    simp only [denMax, foldl_capLcm_eq d t hd ht hfit]
+    exact Nat.min_eq_left hfit
+  rw [e]
+  intro x hx
+  rcases List.mem_cons.mp hx with rfl | hx
+  · exact foldl_lcm_dvd _ t
+  · exact foldl_lcm_mem_dvd d t x hx
+
+example : denMax [4, 8, 12, 16] = 48 ∧ denMax [128, 36, 20] = 384 ∧ rowOf 5 36 384 = 53 := by decide
+
+/-! ### measures and padding -/
+
+/-- strictly ascending list of measure numbers, all above `prev` -/
+def AscFrom : Int → List Int → Prop
+  | _, [] => True
+  | prev, m :: rest => prev < m ∧ AscFrom m rest
+
+/-- **Padding count**: the written chart has exactly one measure for every measure number from `prev + 1`
+(= 0 for the writer, which starts at `prev_measure = -1`) up to the last measure that holds an object — the
+missing ones are padded — so every measure keeps its number. -/
+theorem padding_count (keys : Nat) (slots : List Slot) (prev : Int) (ms : List Int) (out : List (List Str))
+    (hasc : AscFrom prev ms) (h : writeLoop keys slots prev ms = .ok out) :
+    (out.length : Int) = (ms.getLast?.getD prev) - prev := by
+  induction ms generalizing prev out with
+  | nil => simp [writeLoop] at h; subst h; simp
+  | cons m rest ih =>
+    obtain ⟨hlt, hrest⟩ := hasc
+    simp only [writeLoop] at h
+    cases hf : fillMeasure keys (slots.filter fun s => s.measure = m) with
+    | error e => simp [hf] at h
+    | ok rows =>
+      cases ht : writeLoop keys slots m rest with
+      | error e => simp [hf, ht] at h
+      | ok tl =>
+        simp [hf, ht] at h
+        subst h
+        have := ih m tl hrest ht
+        simp only [List.length_append, List.length_replicate, List.length_cons]
+        have hg : (rest.getLast?.getD m) = ((m :: rest).getLast?.getD prev) := by
+          cases rest with
+          | nil => simp
+          | cons a r =>
+            rw [List.getLast?_cons_cons]
+            cases hgl : (a :: r).getLast? with
+            | none => simp at hgl
+            | some v => simp
+        rw [← hg]
+        have hn : (((m - prev - 1).toNat : Nat) : Int) = m - prev - 1 := Int.toNat_of_nonneg (by omega)
+        push_cast
+        omega
+
+/-- **Each measure is written at its own index**: the rows produced for measure `m` sit at index `m - prev - 1`
+of the output (index `m` for the writer), after the padding. -/
+theorem measure_at_index (keys : Nat) (slots : List Slot) (prev : Int) (m : Int) (rest : List Int)
+    (out : List (List Str)) (hlt : prev < m) (h : writeLoop keys slots prev (m :: rest) = .ok out) :
+    ∃ rows, fillMeasure keys (slots.filter fun s => s.measure = m) = .ok rows ∧
+      out[(m - prev - 1).toNat]? = some rows ∧
+      ∀ i, i < (m - prev - 1).toNat → out[i]? = some paddingMeasure := by
+  simp only [writeLoop] at h
+  cases hf : fillMeasure keys (slots.filter fun s => s.measure = m) with
+  | error e => simp [hf] at h
+  | ok rows =>
+    cases ht : writeLoop keys slots m rest with
+    | error e => simp [hf, ht] at h
+    | ok tl =>
+      simp [hf, ht] at h
+      subst h
+      refine ⟨rows, rfl, ?_, ?_⟩
+      · rw [List.getElem?_append_right (by simp)]
+        simp
+      · intro i hi
+        rw [List.getElem?_append_left (by simp; omega)]
+        rw [List.getElem?_replicate]
+        simp
+        omega
+
+example : AscFrom (-1) [0, 2, 5] := by simp [AscFrom]
+
+/-! ### header lines -/
+
+/-- `round(beat, 2)` is exact on multiples of 1/100 — in particular on whole beats and measure lines, so a tempo
+change on a measure line is written at exactly its beat. -/
+theorem round2_exact (n : Int) : round2 ((n : Rat) / 100) = (n : Rat) / 100 := by
+  unfold round2 roundHalfEven
+  have h : (n : Rat) / 100 * 100 = (n : Rat) := by ring
+  rw [h]
+  simp [Rat.floor_intCast]
+
+example : round2 (1/8) = 3/25 ∧ round2 (3/8) = 19/50 ∧ round2 (1/16) = 3/50 ∧ round2 12 = 12 := by decide +kernel
+
+/-- **DSM3 (open finding)**: a tempo change on a 1/16 beat is written at a different beat (`0.0625 → 0.06`), and an
+object four beats later (in memory at 456.25 ms) is denoted by the written `#BPMS` at 454 ms — 2.25 ms off, more
+than 1/96 beat at the local tempo (600 bpm: 1.04 ms). -/
+theorem bpms_round_counterexample :
+    round2 (1/16) = 3/50 ∧
+    timeOfBeat 0 [(0, 60), (1/16, 600)] 4 = 1825/4 ∧
+    timeOfBeat 0 [(0, 60), (3/50, 600)] 4 = 454 ∧
+    ((1825/4 : Rat) - 454 > (60000 / 600) / 96) := by decide +kernel
+
+/-- the `#SELECTABLE` line as the writer emits it (after the D03 repair): `"#SELECTABLE:" + ("YES;" | "NO;")`
+— the token between the `;`s, read by `_read_metadata`, gives the flag back. -/
+theorem selectable_roundtrip (b : Bool) (st : MState) :
+    (metaLine st (tagSelectable ++ ':' :: (if b then yesStr else noStr))).toOption.map (fun s => s.hdr.selectable)
+      = some b := by
+  cases b <;> simp [metaLine, splitOn, tagSelectable, yesStr, noStr, strip, lstrip, rstrip, isWs, commentTrick,
+    stringTags, tagOffset, tagBpms, tagStops, tagSampleStart, tagSampleLength, List.lookup, Except.toOption,
+    bind, Except.bind]
+
+end Reamber.C03
